@@ -140,6 +140,8 @@ pub fn worker_main(fam: &dyn Family, tier: Tier, w: usize, k: usize, from: usize
         scratch: crate::oracle::Scratch::new(&format!("{}-{}", fam.name(), w)),
         tier,
     };
+    // queries and `compile` resolve relative paths against the working directory: make it an empty one
+    let _ = std::env::set_current_dir(&ctx.scratch.empty);
     // silence the default panic hook (panics are caught and reported as findings)
     std::panic::set_hook(Box::new(|_| {}));
     let mut agg = Agg::default();
